@@ -113,12 +113,13 @@ class C02(Profile):
 def multi_gen(rng, tier, *, weights, flags_p=0.5, engines=None, max_ops=None, **kw):
     big = tier == "thorough"
     engines = engines or (["sql", "it", "it2"] if rng.random() < 0.35 else ["sql", "it"])
+    kw.setdefault("hidden_p", 0.15)
     g = Gen(rng, engines=engines, weights=weights, max_ops=max_ops or (14 if big else 9), nleaves=(1, 3),
             flags_p=flags_p, **kw)
     return {"config": swarm_config(rng), "ops": g.build()}
 
 
-MULTI_W = {**UNARY_W, "xfer": 4, "mat": 1.2, "chain": 1, "join": 1.2, "leaf": 1, "chain_empty": 0.3}
+MULTI_W = {**UNARY_W, "xfer": 4, "mat": 1.2, "chain": 1, "join": 1.2, "leaf": 1, "chain_empty": 0.3, "roundtrip_empty": 0.25}
 
 
 class C03(Profile):
@@ -341,7 +342,7 @@ class C07(Profile):
         return self.claims.get(kind)
 
     def gen(self, rng, tier):
-        w = {**UNARY_W, "xfer": 5, "mat": 3, "chain": 1.5, "chain_empty": 1.2, "join": 0.6, "leaf": 1.5, "process": 5, "run": 1}
+        w = {**UNARY_W, "xfer": 5, "mat": 3, "chain": 1.5, "chain_empty": 1.2, "roundtrip_empty": 0.5, "join": 0.6, "leaf": 1.5, "process": 5, "run": 1}
         return multi_gen(rng, tier, weights=w, flags_p=0.15, special_leaf_p=0.12,
                          bounds=("exact", "loose", "zeromin", "unbounded"))
 
@@ -432,7 +433,7 @@ class C10(Profile):
 
     def gen(self, rng, tier):
         w = {"calc": 2, "proj": 2, "sel": 2, "dedup": 1, "sort": 1.5, "slice": 1.5, "xfer": 3, "mat": 5, "chain": 2,
-             "chain_empty": 1.2, "leaf": 1, "process": 5, "run": 4, "attach": 4, "iterate": 2, "cursor_open": 0.5, "pull": 1}
+             "chain_empty": 1.2, "roundtrip_empty": 0.4, "leaf": 1, "process": 5, "run": 4, "attach": 4, "iterate": 2, "cursor_open": 0.5, "pull": 1}
         return multi_gen(rng, tier, weights=w, flags_p=0.1, engines=rng.choice([["it"], ["sql", "it"], ["sql", "it", "it2"]]),
                          max_ops=18 if tier == "thorough" else 12)
 
